@@ -256,8 +256,9 @@ func renderAll(insts []*instance, m map[string]*mres) string {
 }
 
 type runStats struct {
-	noHook      bool
-	timingAbort int
+	noHook       bool
+	timingAbort  int
+	remoteProbes int
 }
 
 // runCase executes one case on a real context and judges it.  discarded != "" means an environment problem.
@@ -411,6 +412,24 @@ func runCase(cs caseSpec, env *wenv, st *runStats) (outcome string, fail *failur
 		}
 	}
 
+	// remote observers look at the resources from inside every attempt (before each operation and right before
+	// the abort/commit decision); the driver is blocked in Step meanwhile, so the slice needs no lock
+	type probeRec struct {
+		in      *instance
+		sec, op int
+		got     string
+		err     error
+	}
+	var probes []probeRec
+	maxRemote := map[string]int{} // grow-only counters: the largest state any remote peer ever received
+	script.Probe = func(sec, op, attempt int) {
+		for _, in := range insts {
+			if in.remote != nil {
+				got, err := in.remote()
+				probes = append(probes, probeRec{in, sec, op, got, err})
+			}
+		}
+	}
 	g := gate2.New(tla.MakeString("self"), script.Archetype(), gate2.Options{Timeout: 90 * time.Second}, cfg...)
 	defer g.Kill()
 	if r := g.Start(); r.Ended || r.Hung {
@@ -418,6 +437,13 @@ func runCase(cs caseSpec, env *wenv, st *runStats) (outcome string, fail *failur
 	}
 
 	checkState := func(when, sub string, kindOfFault string) *failure {
+		for name, n := range maxRemote {
+			var committed int
+			fmt.Sscan(model[name].cell, &committed)
+			if n > committed {
+				return &failure{byName[name].kind + "/" + kindOfFault + "/remote-keeps-uncommitted", fmt.Sprintf("%s: a remote peer of %s holds state %d, more than was ever committed (%d)  | %s", when, name, n, committed, cs)}
+			}
+		}
 		for _, in := range insts {
 			want := model[in.name].render(in.cat)
 			var got string
@@ -478,6 +504,32 @@ func runCase(cs caseSpec, env *wenv, st *runStats) (outcome string, fail *failur
 			if planned {
 				fk = f.Kind
 			}
+			if planned2 {
+				fk = "body"
+			}
+			// what remote parties saw while the attempt was in flight: only state committed before it
+			for _, p := range probes {
+				var ee envError
+				if errors.As(p.err, &ee) {
+					return "", nil, "env: " + ee.Error()
+				}
+				want := model[p.in.name].render(p.in.cat)
+				if p.err != nil {
+					return "", &failure{p.in.kind + "/" + fk + "/remote-unreadable", fmt.Sprintf("s%d before op %d: remote observer of %s: %v  | %s", p.sec, p.op, p.in.name, p.err, cs)}, ""
+				}
+				if p.got != want {
+					return "", &failure{p.in.kind + "/" + fk + "/remote-sees-uncommitted", fmt.Sprintf("during an attempt of s%d (before operation %d of %d) a remote peer of %s (%s) received state %s; the state committed at the last label boundary is %s  | %s", p.sec, p.op, len(secs[s].Ops), p.in.name, p.in.kind, p.got, want, cs)}, ""
+				}
+				st.remoteProbes++
+				if p.in.cat == "counter" {
+					var n int
+					fmt.Sscan(p.got, &n)
+					if n > maxRemote[p.in.name] {
+						maxRemote[p.in.name] = n
+					}
+				}
+			}
+			probes = probes[:0]
 			// replay what the body saw on the reference transaction
 			t := newTx(model)
 			obs := script.Obs[mark:]
@@ -649,13 +701,16 @@ func families(thorough bool) []bounds {
 	// then fails (false await, or the sibling refuses an operation or its pre-commit after the send) on a connection
 	// that stays open, the retry commits, a second section sends again; the receiving end is drained and compared
 	tcp := bounds{Name: "tcp-pair", Kinds: []string{"tcpout", "reflocal", "local"}, MinKinds: 2, MaxKinds: 2, MaxSec: 2, MaxOps: 2, MaxTotal: 3, MustHave: []string{"tcpout"}}
+	// a single-node CRDT (grow-only counter) with a scripted remote peer that asks for the resource's state over its
+	// RPC listener in the middle of every attempt
+	crdt := bounds{Name: "crdt-remote", Kinds: []string{"crdt", "reflocal", "local"}, MinKinds: 2, MaxKinds: 2, MaxSec: 2, MaxOps: 2, MaxTotal: 3, MustHave: []string{"crdt"}}
 	if !thorough {
-		return []bounds{tcp, q, d}
+		return []bounds{tcp, crdt, q, d}
 	}
 	d.MaxKinds = 3
 	q.MaxSec, q.MaxTotal = 3, 4
 	slow := bounds{Name: "disk", Kinds: append(append([]string{}, slowKinds...), "local", "incmap", "inchan", "outchan"), MinKinds: 2, MaxKinds: 2, MaxSec: 2, MaxOps: 2, MaxTotal: 3, MustHave: slowKinds}
-	return []bounds{tcp, slow, d, q}
+	return []bounds{tcp, crdt, slow, d, q}
 }
 
 func TestCheck(t *testing.T) {
@@ -701,6 +756,7 @@ func TestCheck(t *testing.T) {
 				}()
 				statsMu.Lock()
 				total.timingAbort += st.timingAbort
+				total.remoteProbes += st.remoteProbes
 				total.noHook = total.noHook || st.noHook
 				if disc != "" {
 					discards[disc]++
@@ -776,6 +832,7 @@ func TestCheck(t *testing.T) {
 		cov["families"] = perFamily
 		cov["exhaustive"] = exhaustive
 		cov["timing_aborts_accepted"] = total.timingAbort
+		cov["remote_mid_attempt_observations_judged"] = total.remoteProbes
 		cov["discarded"] = discards
 		cov["inputchan_private_buffer_checked"] = !total.noHook
 		res.Coverage = cov
